@@ -47,6 +47,12 @@ static void on_realloc_entry(void *p, size_t ledger_size, size_t) {
     if (((unsigned char *)p)[i] != 0) g_re.zero_ok = false;
 }
 
+// the same observation when the library lets go of the block through free() (allocate-new-then-free-old is as
+// sound a way to grow as realloc; the property only says the old block is erased first and nothing is lost)
+static void on_release_c14(void *p, size_t ledger_size, char kind) {
+  if (kind == 'f') on_realloc_entry(p, ledger_size, 0);
+}
+
 struct Slot {
   void *data = nullptr;
   int size = 0;
@@ -60,6 +66,7 @@ static Verdict c14_check(const KV &c, Ctx &ctx) {
   S.live.clear();
   S.foreign_free = 0;
   S.on_realloc_entry = on_realloc_entry;
+  S.on_release = on_release_c14;
   Slot slots[3];
   Verdict v;
   int grow_after_success = 0, nops = 0, ngrow = 0;
@@ -107,8 +114,10 @@ static Verdict c14_check(const KV &c, Ctx &ctx) {
       if (!must_grow && s.data != before) { v = "C14 crypt_ra replaced a sufficiently large block" + where(i); break; }
       if (must_grow) {
         ngrow++;
-        if (before && !g_re.seen) { v = "C14 an undersized block was not handed to realloc (leak or stale pointer) from " + st + where(i); break; }
-        if (before && size_before > 0 && !g_re.zero_ok) { v = "C14 the undersized block was not erased over its recorded size (" + std::to_string(size_before) + " bytes) before realloc" + where(i); break; }
+        // the undersized block must have been given back (through realloc or free) - if it was not, it is either
+        // still *data (caught above: too small) or lost (caught below: live-block count)
+        if (before && g_re.seen && size_before > 0 && !g_re.zero_ok) { v = "C14 the undersized block was not erased over its recorded size (" + std::to_string(size_before) + " bytes) before it was given to realloc/free" + where(i); break; }
+        if (before && !g_re.seen && S.live.find(before) == S.live.end()) { v = "C14 internal: the undersized block vanished without passing through realloc or free" + where(i); break; }
         // zero-initialised after growth (everything behind the output field)
         const unsigned char *p = (const unsigned char *)s.data;
         for (size_t k = sizeof(((struct crypt_data *)0)->output); k < DS; k++)
@@ -188,6 +197,7 @@ static Verdict c14_check(const KV &c, Ctx &ctx) {
   }
   S.live.clear();
   S.on_realloc_entry = nullptr;
+  S.on_release = nullptr;
   if (!v.empty()) return v;
   if (grow_after_success) {
     if (ctx.st.nontriv(fnv(h)) && ctx.st.samples.size() < ctx.st.sample_cap) ctx.st.sample("history of " + std::to_string(nops) + " ops, " + std::to_string(ngrow) + " growths (" + std::to_string(grow_after_success) + " after an earlier success): " + hex(h.substr(0, 60)));
